@@ -119,6 +119,7 @@ type opRun struct {
 	n       int64
 	err     error
 	inPos   int // position in the parsed stream (-1 = absent)
+	touched bool // the writer itself called the transport during this op (sync mode)
 }
 
 type probe struct {
@@ -158,6 +159,9 @@ type chanWorld struct {
 	fails      []Fail
 	failKeys   map[string]bool
 	ctxErrSeen map[string]bool
+	excOn      map[string]error
+	lowErr     map[string]error
+	exceptions []error
 }
 
 func (p probe) HandleActive(ctx netty.ActiveContext) {
@@ -176,6 +180,41 @@ func (p probe) HandleRead(ctx netty.InboundContext, message netty.Message) {
 	p.w.reads++
 	if p.w.firstRead < 0 {
 		p.w.firstRead = p.w.step
+	}
+}
+
+// HandleException: an exception raised on a writer goroutine (a failed low-level write under
+// Channel.Write) is recorded and swallowed; everything else goes on to the tail handler,
+// which closes the channel.
+func (p probe) HandleException(ctx netty.ExceptionContext, ex netty.Exception) {
+	if cur := p.w.s.Current(); cur != "" {
+		if _, isWriter := p.w.ops[cur]; isWriter {
+			p.w.excOn[cur] = ex
+			return
+		}
+	}
+	p.w.exceptions = append(p.w.exceptions, ex)
+	ctx.HandleException(ex)
+}
+
+// HandleWrite does what the head handler does for a []byte message and records the result
+// of the low-level write per process (Channel.Write itself reports nil either way).
+func (p probe) HandleWrite(ctx netty.OutboundContext, message netty.Message) {
+	b, ok := message.([]byte)
+	if !ok {
+		ctx.HandleWrite(message)
+		return
+	}
+	n, err := ctx.Channel().Write1(b)
+	if cur := p.w.s.Current(); cur != "" {
+		if err != nil {
+			p.w.lowErr[cur] = err
+		} else if n != len(b) {
+			p.w.lowErr[cur] = io.ErrShortWrite
+		}
+	}
+	if err != nil {
+		panic(err)
 	}
 }
 
@@ -265,6 +304,13 @@ func (w *chanWorld) writerMain(ws WriterSpec) func() {
 				ctx = c
 			}
 			switch op.spec.Kind {
+			case "M":
+				delete(w.excOn, ws.Name)
+				delete(w.lowErr, ws.Name)
+				err = w.ch.Write(buf)
+				if err == nil {
+					n = int64(len(buf))
+				}
 			case "W1":
 				var m int
 				m, err = w.ch.Write1(buf)
@@ -286,6 +332,14 @@ func (w *chanWorld) writerMain(ws WriterSpec) func() {
 			}
 			op.n, op.err = n, err
 			op.res = classify(n, len(op.payload), err)
+			if op.spec.Kind == "M" && err == nil {
+				if ex := w.lowErr[ws.Name]; ex != nil {
+					// Write returned nil although the low-level write failed (exception raised)
+					op.res = "mexc"
+					op.err = ex
+					err = ex
+				}
+			}
 			// the caller reuses its buffer immediately (snapshot semantics)
 			for i := range buf {
 				buf[i] = 0xEE
@@ -485,7 +539,7 @@ func runChanCase(c *ChanCase) *ChanResult {
 		c: c, s: s, ops: map[string][]*opRun{}, byID: map[byte]*opRun{}, rets: map[string][]string{},
 		cancels: map[string]context.CancelFunc{}, closeErr: map[string]error{}, failKeys: map[string]bool{},
 		firstRead: -1, serveRet: -1, closeRetStep: -1, winnerRet: -1, closeInvoked: -1,
-		closersDone: map[string]bool{}, ctxErrSeen: map[string]bool{},
+		closersDone: map[string]bool{}, ctxErrSeen: map[string]bool{}, excOn: map[string]error{}, lowErr: map[string]error{},
 	}
 	netty.VerifHook = func(obj interface{}, point string) { s.Gate(obj, point) }
 	w.tr = mock.NewTransport(s)
@@ -592,7 +646,14 @@ func runChanCase(c *ChanCase) *ChanResult {
 			if rnd != nil {
 				kind, proc = w.pickRandom(rnd, atGate, prio)
 			} else {
+				// completion after the schedule: anybody but a closer that would only busy-poll
 				kind, proc = "step", atGate[0]
+				for _, n := range atGate {
+					if !(s.Loc(n) == "c.poll" && netty.VerifState(w.ch).Running != 0) {
+						proc = n
+						break
+					}
+				}
 			}
 		}
 		ev := Event{P: proc}
@@ -619,10 +680,20 @@ func runChanCase(c *ChanCase) *ChanResult {
 				}
 			}
 			// bookkeeping before the step
-			if gate == "w.enter" {
+			if gate == "w.enter" || gate == "m.enter" {
 				for _, op := range w.ops[proc] {
-					if op.began < 0 {
-						op.began = w.step
+					if op.ret < 0 {
+						if op.began < 0 {
+							op.began = w.step
+						}
+						break
+					}
+				}
+			}
+			if strings.HasPrefix(gate, "t.") {
+				for _, op := range w.ops[proc] {
+					if op.ret < 0 {
+						op.touched = true
 						break
 					}
 				}
@@ -665,7 +736,14 @@ func runChanCase(c *ChanCase) *ChanResult {
 		for _, ws := range c.Writers {
 			n := len(w.rets[ws.Name])
 			for i := lastRetLen[ws.Name]; i < n; i++ {
-				w.ops[ws.Name][i].ret = w.step
+				op := w.ops[ws.Name][i]
+				op.ret = w.step
+				if op.res == "terr" && !op.touched {
+					// a transport error the writer did not cause itself is the stored close
+					// error of a channel closed by a failing sender or reader
+					op.res = "closed"
+					w.rets[ws.Name][i] = "closed"
+				}
 			}
 			lastRetLen[ws.Name] = n
 		}
@@ -867,6 +945,18 @@ func (w *chanWorld) pickRandom(rnd *rand.Rand, atGate []string, prio map[string]
 		}
 	default:
 		proc = atGate[rnd.Intn(len(atGate))]
+	}
+	// a busy poll of Close costs a real 100ms sleep: mostly let somebody else move
+	if w.s.Loc(proc) == "c.poll" && netty.VerifState(w.ch).Running != 0 && len(atGate) > 1 && rnd.Intn(8) != 0 {
+		var others []string
+		for _, n := range atGate {
+			if w.s.Loc(n) != "c.poll" {
+				others = append(others, n)
+			}
+		}
+		if len(others) > 0 {
+			proc = others[rnd.Intn(len(others))]
+		}
 	}
 	kind := "step"
 	if r.FaultProb > 0 && w.faultsUsed < w.c.MaxFault {
